@@ -17,7 +17,7 @@ POOLS = [0, 1, 2, 3, 8, 16]
 
 def sizes(ctx):
     if ctx.tier == 'quick':
-        return dict(programs=10, groups=24, triples=40)
+        return dict(programs=16, groups=48, triples=72)
     return dict(programs=60, groups=300, triples=216)
 
 
@@ -89,8 +89,8 @@ def gen_cases(ctx):
             cut = rng.randrange(1, len(rows))
             first, second = rows[:cut], rows[cut:]
             # lattices: new keys only in the added chunk
-            seen = set((r, t[:-1]) for r, t in first if c.ref_prog.rel(r).is_lat)
-            second = [(r, t) for r, t in second if not (c.ref_prog.rel(r).is_lat and (r, t[:-1]) in seen)]
+            from checks.c13 import lattice_new_keys_only
+            first, second = lattice_new_keys_only(c.ref_prog, [first, second])
             steps = [('pool', b), ('run',), ('add', second), ('pool', c3), ('run',)]
             inp = first
         else:
